@@ -4,7 +4,10 @@ package main
 import (
 	"verif/vlib"
 
+	_ "verif/checks/flow"
 	_ "verif/checks/index"
+	_ "verif/checks/mkarray"
+	_ "verif/checks/ranges"
 )
 
 func main() { vlib.Main() }
